@@ -100,6 +100,11 @@ class Machine(object):
         sched = {"line_k": rng.choice([3, 10, 40, 150, 600, 3000]), "c_k": rng.choice([0, 50, 300, 2000, 20000, 200000]),
                  "p_switch": rng.choice([0.1, 0.3, 0.6, 1.0]), "native_p": rng.choice([0.0, 0.1, 0.5, 1.0]), "seed": rng.randrange(1 << 30),
                  "max_switches": rng.choice([6, 25, 25, 100, 100, 400])}
+        if curve_focus and rng.random() < 0.6:
+            # races on data shared through the curve object (generator point, context) need dense pre-emption inside C
+            sched["c_k"] = rng.choice([30, 100, 300, 300, 1000])
+            sched["max_switches"] = rng.choice([100, 400, 400, 1000])
+            sched["p_switch"] = rng.choice([0.6, 1.0])
         return {"programs": programs, "sched": sched, "ops": []}
 
     SHRINK_FIELDS = ("programs",)
@@ -153,7 +158,13 @@ class Machine(object):
                 if a != b:
                     op = programs[i][j] if j < len(programs[i]) else None
                     kind = "input-mutated" if str(a).startswith("MUTATED") else ("exception" if str(a).startswith("EXC") else "result")
-                    ctx.violate("threads/%s/%s" % (kind, op[0] if op else "?"),
+                    detail = ""
+                    if kind == "exception":
+                        detail = "/" + str(a).split(":")[1]
+                    elif kind == "input-mutated":
+                        import re
+                        detail = "/" + re.sub(r"[^A-Za-z0-9]+", "-", str(a).split(":", 1)[1])[:48]
+                    ctx.violate("threads/%s/%s%s" % (kind, op[0] if op else "?", detail),
                                 "thread %d of %d, operation %s: the interleaved run %s but alone it %s (%d context switches, schedule %s)" % (
                                     i, nt, op, self._say(a), self._say(b), sched.switches, sched.digest()),
                                 observed=str(a)[:200], expected=str(b)[:200])
